@@ -21,10 +21,12 @@ type SpecEnv struct {
 	depth int
 	qn    int
 	locals func(name string) (Val, bool)
+	headEnv *SpecEnv // environment at the loop head of the current iteration (inv-keep only)
+	nowSt   *State   // the non-old state (for now() inside old())
 }
 
 func (ex *Exec) newEnv(st, old *State, fr *Frame) *SpecEnv {
-	return &SpecEnv{ex: ex, st: st, old: old, fr: fr, vars: map[string]Val{}}
+	return &SpecEnv{ex: ex, st: st, old: old, fr: fr, vars: map[string]Val{}, nowSt: st}
 }
 
 type specErr struct{ msg string }
@@ -433,8 +435,34 @@ func (env *SpecEnv) call(x *SCall) Val {
 		switch x.Fun {
 		case "old":
 			sub := *env
+			if sub.nowSt == nil {
+				sub.nowSt = env.st
+			}
 			sub.st = env.old
 			return sub.eval(x.Args[0])
+		case "now":
+			sub := *env
+			if env.nowSt != nil {
+				sub.st = env.nowSt
+			}
+			return sub.eval(x.Args[0])
+		case "head":
+			// value at the head of the current loop iteration (only meaningful in inv-keep)
+			if env.headEnv == nil {
+				return env.eval(x.Args[0])
+			}
+			h := *env.headEnv
+			// bound variables of enclosing quantifiers stay visible
+			h.vars = map[string]Val{}
+			for k, v := range env.headEnv.vars {
+				h.vars[k] = v
+			}
+			for k, v := range env.vars {
+				if v.T == nil && len(v.L) == 1 && strings.Contains(v.L[0].S, "!q") {
+					h.vars[k] = v
+				}
+			}
+			return h.eval(x.Args[0])
 		case "len":
 			v := env.eval(x.Args[0])
 			if v.T == nil {
@@ -519,7 +547,7 @@ func (env *SpecEnv) call(x *SCall) Val {
 			row := Select(env.st.get(h), sl.L[0])
 			na := ex.vc.fresh("seqw", a.Sort)
 			k := Term{"sw", SInt}
-			ex.vc.assert(Forall([]string{"sw"}, Implies(And(Le(Int(0), k), Lt(k, sl.L[2])), Eq(Select(na, Add(pos, k)), Select(row, Add(sl.L[1], k)))), Select(na, Add(pos, k))))
+			ex.vc.assert(Forall([]string{"sw"}, Implies(And(Le(pos, k), Lt(k, Add(pos, sl.L[2]))), Eq(Select(na, k), Select(row, Add(sl.L[1], Sub(k, pos))))), Select(na, k)))
 			ex.vc.assert(Forall([]string{"sw"}, Implies(Or(Lt(k, pos), Ge(k, Add(pos, sl.L[2]))), Eq(Select(na, k), Select(a, k))), Select(na, k)))
 			return spec1(na)
 		case "shift":
@@ -585,7 +613,7 @@ func (env *SpecEnv) callPred(pd *PredDef, recv *Val, args []SExpr) Val {
 	if len(args) != len(pd.Params) {
 		sfail("predicate %s expects %d arguments", pd.Name, len(pd.Params))
 	}
-	sub := &SpecEnv{ex: env.ex, st: env.st, old: env.old, fr: env.fr, vars: map[string]Val{}, pkg: env.pkg, depth: env.depth + 1}
+	sub := &SpecEnv{ex: env.ex, st: env.st, old: env.old, fr: env.fr, vars: map[string]Val{}, pkg: env.pkg, depth: env.depth + 1, nowSt: env.nowSt, headEnv: env.headEnv, locals: nil}
 	if pd.Pkg != "" {
 		sub.pkg = pd.Pkg
 	}
@@ -769,7 +797,7 @@ func (fr *Frame) localByName(name string, b *ssa.BasicBlock, st *State, phiOverr
 	var bestAddr bool
 	bestDepth := -1
 	for _, blk := range fr.fn.Blocks {
-		if !(blk.Dominates(b)) || blk == b {
+		if !(blk.Dominates(b)) || (blk == b && !fr.includeOwnBlock) {
 			continue
 		}
 		depth := 0
